@@ -148,5 +148,5 @@ Example ex_close :
   fst (fst (run_op true OClose tstate0
      [AS {| a_meth := MUnwrap; a_arg := 0; a_out := SWantRead; a_wdelta := close_notify Ex |}; AT TSent; AT (TRcvd [])%N;
       AS {| a_meth := MUnwrap; a_arg := 0; a_out := SErr ESslEof; a_wdelta := [] |}]))
-  = {| sh := shared0; closing := true; tr_closing := true |}.
+  = {| sh := set_feeds shared0 1; closing := true; tr_closing := true |}.
 Proof. vm_compute. reflexivity. Qed.
